@@ -13,7 +13,7 @@ RULE = ("PAGofMAG(n): the PAG (computed by the extracted Coq spec pag_of_mag fro
         "undirected edges on n<=3 (quick) / n<=4 (thorough) nodes; structural clauses: every mark graph MARKS(n) n<=3 over the ten "
         "per-pair kinds (none,->,<-,<->,--,o-o,o->,<-o,-o,o-) and seeded random ones n<=7; all-circle PAGs on connected chordal "
         "skeletons with 5-7 nodes (paths, triangle strips, random chordal graphs; PAG of any collider-free DAG orientation), each "
-        "under 30-100 node labelings (permuted, scattered ints) / insertion orders; distinct by canonical PAG; "
+        "under 10-100 node labelings (permuted, scattered ints) / insertion orders; distinct by canonical PAG; "
         "non-trivial = the PAG has at least one circle mark")
 EXHAUSTIVE = {"quick": "PAGofMAG(n) n<=3; MARKS(n) n<=3", "thorough": "PAGofMAG(n) n<=4; MARKS(n) n<=3"}
 TRUSTED = ["PAG.copy / remove_edge / orient_uncertain_edge, ADMG.add_edge taken at face value",
@@ -123,6 +123,8 @@ def chordal_cases(rng, tier):
         pos = {v: i for i, v in enumerate(mcs_order(n, edges))}
         dag = [(a, b) if pos[a] < pos[b] else (b, a) for a, b in edges]
         reps = (100 if not name.startswith("chordal") else 30) * (1 if tier == "quick" else 3)
+        if n == 7:
+            reps //= 3      # the oracle's Markov-equivalence check on 7 nodes dominates the run time
         for r in range(reps):
             perm = list(range(n))
             rng.shuffle(perm)
